@@ -210,8 +210,8 @@ def explore(exe, journal_path, bits, plan, seed, stats):
                 if not nsim.apply(no): continue
                 for nimg in ([nsim.img_max(no.idx)] + ([nsim.img_min(no.idx)] if img.cls != 'max' or no.idx % 3 == 0 else [])):
                     r2, _ = run_recover(exe, nsim, nimg, bits, 0)
-                    chain = 'max' if (img.cls == 'max' and nimg.cls == 'max') else 'power'
-                    nres.append(norm_result(r2, img.cls + '+' + nimg.cls, chain, img.at, 'nested@%d' % no.idx))
+                    nres.append((r2, nimg.cls, no.idx))      # labelled when used: the same image content can be the max image of one
+                                                             # crash point and the min image of a later one (different chains)
         cache[k] = (res, nres)
         return job, (res, nres), False
 
@@ -225,8 +225,9 @@ def explore(exe, journal_path, bits, plan, seed, stats):
         chain = 'max' if img.cls in ('max', 'gap') else 'power'
         by_event.setdefault(ei, []).append(norm_result(res, img.cls, chain, img.at, img.detail))
         classes[img.cls] = classes.get(img.cls, 0) + 1
-        for x in nres:
-            by_event[ei].append(x); nnest += 1
+        for (r2, ncls, nidx) in nres:
+            nchain = 'max' if (img.cls in ('max', 'gap') and ncls == 'max') else 'power'
+            by_event[ei].append(norm_result(r2, img.cls + '+' + ncls, nchain, img.at, 'nested@%d' % nidx)); nnest += 1
     stats['images'] = len(jobs); stats['real_recoveries'] = nreal + nnest; stats['nested_recoveries'] = nnest; stats['image_classes'] = classes
     lines = [dict(e='meta', inos=metas, batches=bat)]
     for ei, (ev, imgs) in enumerate(events):
